@@ -609,6 +609,8 @@ class Resolver:
             if isinstance(v, ast.Lambda):
                 ok = True
                 continue
+            if isinstance(v, ast.Call) and isinstance(v.func, ast.Attribute) and v.func.attr == 'get' and v.args:
+                v = ast.Subscript(value=v.func.value, slice=v.args[0], ctx=ast.Load())      # d.get(k[, default]) looks d[k] up
             if isinstance(v, ast.Subscript):
                 d = v.value
                 # local literal dict of bound methods
